@@ -35,7 +35,8 @@ Inductive wop :=
 | ONewFile                                (* File() *)
 | OFileRead (n : nat)                     (* File.read(content) yielding n elements *)
 | OAppend (f : nat)                       (* file.data.append(fresh element) *)
-| ORemoveLast (f : nat).                  (* file.data.remove(last) when more than one element *)
+| ORemoveLast (f : nat)                   (* file.data.remove(last) when more than one element *)
+| OMove (fa fb : nat).                    (* e = second element of file fa (when it has >= 3); fa.data.remove(e); fb.data.append(e) *)
 
 Definition set_slot (o : lineobj) (i : nat) (v : value) : lineobj :=
   {| lo_st := map (fun p => (fst (snd p), if Nat.eqb (fst p) i then v else snd (snd p)))
@@ -110,6 +111,18 @@ Section Step.
                      conts := upd c (removelast es) (conts w); files := files w; next_elem := next_elem w |}, None)
             else (w, None)
         end
+    | OMove fa fb =>
+        match nth_error (files w) fa, nth_error (files w) fb with
+        | Some ca, Some cb =>
+            match get [] ca (conts w) with
+            | e0 :: e :: e2 :: rest =>
+                let c1 := upd ca (e0 :: e2 :: rest) (conts w) in
+                ({| lines := lines w; lists := lists w; regs := regs w; results := results w;
+                    conts := upd cb (get [] cb c1 ++ [e]) c1; files := files w; next_elem := next_elem w |}, None)
+            | _ => (w, None)
+            end
+        | _, _ => (w, None)
+        end
     end.
 End Step.
 
@@ -137,7 +150,8 @@ Definition dec_wop (s : sx) : wop :=
   | 6%Z => ONewFile
   | 7%Z => OFileRead a
   | 8%Z => OAppend a
-  | _ => ORemoveLast a
+  | 9%Z => ORemoveLast a
+  | _ => OMove a b
   end.
 
 Definition observe_world (w : world) : sx :=
